@@ -40,6 +40,41 @@ pub assume_specification<T, A: std::alloc::Allocator>[VecDeque::<T, A>::front](q
     ensures
         r == (if q@.len() > 0 { Some(&q@[0]) } else { None::<&T> });
 
+// ---- further `VecDeque` operations a flow can be edited / inspected with (std::collections::VecDeque) ----
+// `VecDeque::swap_remove_back`: "Removes an element from anywhere in the deque and returns it, replacing it with the
+// last element. This does not preserve ordering, but is O(1). Returns None if index is out of bounds. Element at
+// index 0 is the front of the queue."
+pub assume_specification<T, A: std::alloc::Allocator>[VecDeque::<T, A>::swap_remove_back](q: &mut VecDeque<T, A>, index: usize) -> (r: Option<T>)
+    ensures
+        index < old(q)@.len() ==> r == Some(old(q)@[index as int])
+            && final(q)@ == old(q)@.update(index as int, old(q)@.last()).drop_last(),
+        index >= old(q)@.len() ==> r is None && final(q)@ == old(q)@;
+
+// `VecDeque::swap_remove_front`: "Removes an element from anywhere in the deque and returns it, replacing it with the
+// first element. This does not preserve ordering, but is O(1). Returns None if index is out of bounds. Element at
+// index 0 is the front of the queue."
+pub assume_specification<T, A: std::alloc::Allocator>[VecDeque::<T, A>::swap_remove_front](q: &mut VecDeque<T, A>, index: usize) -> (r: Option<T>)
+    ensures
+        index < old(q)@.len() ==> r == Some(old(q)@[index as int])
+            && final(q)@ == old(q)@.update(index as int, old(q)@.first()).drop_first(),
+        index >= old(q)@.len() ==> r is None && final(q)@ == old(q)@;
+
+// `VecDeque::back`: "Provides a reference to the back element, or None if the deque is empty."
+pub assume_specification<T, A: std::alloc::Allocator>[VecDeque::<T, A>::back](q: &VecDeque<T, A>) -> (r: Option<&T>)
+    ensures
+        r == (if q@.len() > 0 { Some(&q@[q@.len() - 1]) } else { None::<&T> });
+
+// `VecDeque::is_empty`: "Returns true if the deque is empty."
+pub assume_specification<T, A: std::alloc::Allocator>[VecDeque::<T, A>::is_empty](q: &VecDeque<T, A>) -> (r: bool)
+    ensures
+        r == (q@.len() == 0);
+
+// `VecDeque::contains`: "Returns true if the deque contains an element equal to the given value." (equality is
+// `PartialEq::eq`, modelled by `eq_spec` exactly as in `deque_position_eq` above)
+pub assume_specification<T: PartialEq, A: std::alloc::Allocator>[VecDeque::<T, A>::contains](q: &VecDeque<T, A>, x: &T) -> (r: bool)
+    ensures
+        T::obeys_eq_spec() ==> r == (exists|j: int| 0 <= j < q@.len() && (#[trigger] q@[j]).eq_spec(x));
+
 // ---- constructors (`Network::new_*`) ----
 // `crate::stable::build_hasher()` of /repo returns the fixed-seed `BuildHasher` of the Hashable* wrappers. Under
 // A-NET-WRAP the collections are std collections with the default hasher type, so the call is kept and given an
